@@ -364,3 +364,45 @@ def explore(make_execution, bound, check, prefix=(), max_executions=None, stats=
             for alt in range(1, p["n"]):
                 stack.append(list(x.choices[:i]) + [alt])
     return found, stats
+
+
+def children_of(x, pre_len, bound):
+    """Alternative prefixes branching off execution x at points >= pre_len within the preemption bound.
+    -> list of (cost, prefix)"""
+    out = []
+    cum = [0]
+    for p, c in zip(x.points, x.choices):
+        cum.append(cum[-1] + (1 if (c != 0 and p["running_enabled"]) else 0))
+    for i in range(pre_len, len(x.points)):
+        p = x.points[i]
+        cost = cum[i] + (1 if p["running_enabled"] else 0)
+        if cost > bound:
+            continue
+        for alt in range(1, p["n"]):
+            out.append((cost, list(x.choices[:i]) + [alt]))
+    return out
+
+
+def split_frontier(make_execution, bound, check, target=300, max_parent_executions=60):
+    """Expands the exploration tree in the calling process (cheapest-cost = largest sub-trees first) until at least
+    `target` unexplored prefixes exist; returns (found, stats, prefixes).  Every returned prefix must then be explored
+    with explore(..., prefix=p): each execution of the tree is run exactly once overall."""
+    import heapq
+    found, stats = [], {"executions": 0, "points": 0, "capped": 0}
+    heap = [(0, 0, [])]
+    seq = 1
+    leaves = []
+    while heap and len(heap) + len(leaves) < target and stats["executions"] < max_parent_executions:
+        cost, _, pre = heapq.heappop(heap)
+        x = make_execution(pre)
+        stats["executions"] += 1
+        stats["points"] += len(x.points)
+        stats["capped"] += bool(x.capped)
+        v = check(x)
+        if v:
+            found.append((list(x.choices), v))
+        for c, child in children_of(x, len(pre), bound):
+            heapq.heappush(heap, (c, seq, child))
+            seq += 1
+    prefixes = [p for (_, _, p) in heap]
+    return found, stats, prefixes
